@@ -47,15 +47,20 @@ func successNeeds(fn *ssa.Function, target *types.Func, depth int) bool {
 // skippingReturns lists the returns of fn that may be successful and are reachable from the entry without passing any of ps,
 // with the CFG edges in cut removed.
 func skippingReturns(fn *ssa.Function, ps []ssa.Instruction, cut map[[2]*ssa.BasicBlock]bool) []*ssa.Return {
+	return skippingReturnsFrom(fn, fn.Blocks[0], ps, cut)
+}
+
+// skippingReturnsFrom is skippingReturns for the paths that start at block `start` (e.g. the block of a call after which the target must run).
+func skippingReturnsFrom(fn *ssa.Function, start *ssa.BasicBlock, ps []ssa.Instruction, cut map[[2]*ssa.BasicBlock]bool) []*ssa.Return {
 	avoid := map[*ssa.BasicBlock]bool{}
 	for _, p := range ps {
 		avoid[p.Block()] = true
 	}
 	var out []*ssa.Return
-	if avoid[fn.Blocks[0]] {
+	if avoid[start] {
 		return nil
 	}
-	r := core.ReachCutAvoid(fn.Blocks[0], cut, avoid)
+	r := core.ReachCutAvoid(start, cut, avoid)
 	for _, ret := range core.Returns(fn) {
 		if ret.Block() == fn.Recover || !r[ret.Block()] {
 			continue
@@ -73,12 +78,21 @@ func skippingReturns(fn *ssa.Function, ps []ssa.Instruction, cut map[[2]*ssa.Bas
 // (for one boolean struct field `flag`) are removed, and then every function that writes one of stateFields outside a constructor must
 // store true into that flag on every path from the write to its return.
 func writtenOrFlagged(c *core.Ctx, key string, fn *ssa.Function, target *types.Func, stateFields []*types.Var, loaders ...*ssa.Function) {
+	writtenOrFlaggedFrom(c, key, fn, nil, target, stateFields, loaders...)
+}
+
+// writtenOrFlaggedFrom is writtenOrFlagged for the paths that start at the block of `after` (nil: the entry of fn).
+func writtenOrFlaggedFrom(c *core.Ctx, key string, fn *ssa.Function, after ssa.Instruction, target *types.Func, stateFields []*types.Var, loaders ...*ssa.Function) {
+	start := fn.Blocks[0]
+	if after != nil {
+		start = after.Block()
+	}
 	ps := passers(fn, target, 3)
 	if len(ps) == 0 {
 		c.Check(key, "must-call", false, fn.Pos(), "%s (or a same-package helper on its success path) never calls %s", shortFn(fn), objName(target))
 		return
 	}
-	skips := skippingReturns(fn, ps, nil)
+	skips := skippingReturnsFrom(fn, start, ps, nil)
 	if len(skips) == 0 {
 		c.Check(key, "must-call", true, fn.Pos(), "every successful exit of %s is preceded by %s", shortFn(fn), objName(target))
 		return
@@ -95,7 +109,7 @@ func writtenOrFlagged(c *core.Ctx, key string, fn *ssa.Function, target *types.F
 			continue
 		}
 		cut := map[[2]*ssa.BasicBlock]bool{{b, b.Succs[skipEdge]}: true}
-		if len(skippingReturns(fn, ps, cut)) == 0 {
+		if len(skippingReturnsFrom(fn, start, ps, cut)) == 0 {
 			flag = f
 		}
 	}
@@ -173,6 +187,15 @@ func flagTest(ifi *ssa.If) (*types.Var, int) {
 			continue
 		}
 		break
+	}
+	// an accessor that returns the flag (`func (x *T) IsDirty() bool { return x.inner.Dirty }`)
+	if call, ok := v.(*ssa.Call); ok {
+		if h := call.Call.StaticCallee(); h != nil && h.Blocks != nil {
+			rs := core.Returns(h)
+			if len(rs) == 1 && len(rs[0].Results) == 1 {
+				v = rs[0].Results[0]
+			}
+		}
 	}
 	ld, ok := v.(*ssa.UnOp)
 	if !ok || ld.Op != token.MUL {
